@@ -293,7 +293,7 @@ Qed.
 Theorem lookup_sound t noglob host path ts : lookup t noglob host path = Some ts ->
   ts <> [] /\
   exists key rs pth,
-    (key = [] \/ (In key (map fst t) /\ norm_host key = if noglob then strip80 host else norm_host host)) /\
+    (key = [] \/ (In key (map fst t) /\ norm_host key = norm_host host)) /\
     assoc (lower key) t = Some rs /\ In (pth, ts) rs /\ has_prefix path pth = true.
 Proof.
   unfold lookup. intros H. apply first_some_Some in H. destruct H as [key [Hk H]].
@@ -304,7 +304,7 @@ Proof.
 Qed.
 
 Theorem lookup_none t noglob host path : lookup t noglob host path = None ->
-  forall key, (key = [] \/ (In key (map fst t) /\ norm_host key = if noglob then strip80 host else norm_host host)) ->
+  forall key, (key = [] \/ (In key (map fst t) /\ norm_host key = norm_host host)) ->
   lookup_host t key path = None.
 Proof.
   unfold lookup. intros H key Hk. apply (first_some_None _ _ H). apply in_or_app.
@@ -330,3 +330,388 @@ Lemma dsthost_absent : dsthost [] = [].
 Proof. reflexivity. Qed.
 Lemma dsthost_several h1 h2 r : dsthost [(k_dsthost, h1 :: h2 :: r)] = [].
 Proof. reflexivity. Qed.
+
+(* ---- histories of the proxy ---- *)
+Lemma step_wf ng s o : wf (s_pool s) -> wf (s_pool (step ng s o)).
+Proof.
+  intros W. destruct o as [m p k|t| |u]; cbn [step].
+  - destruct (lookup (s_tbl s) ng (dsthost m) p) as [ts|]; [|exact W].
+    destruct (nth_error ts k) as [u|]; [|exact W]. cbn [s_pool]. now apply wf_get.
+  - exact W.
+  - cbn [s_pool]. now apply wf_tick.
+  - cbn [s_pool]. now apply wf_shutdown.
+Qed.
+Lemma run_wf ng ops : forall s, wf (s_pool s) -> wf (s_pool (run ng s ops)).
+Proof.
+  induction ops as [|o ops IH]; intros s W; cbn [run fold_left]; [exact W|]. apply IH. now apply step_wf.
+Qed.
+
+(* nothing happens to [u]'s connection: no cleanup tick while [u] is outside the table, the
+   connection does not enter Shutdown.  Calls (to anybody) and table changes are free. *)
+Fixpoint undisturbed (ng : bool) (u : url) (s : state) (ops : list op) : Prop :=
+  match ops with
+  | [] => True
+  | o :: r => match o with
+              | CleanupTick => In u (table_urls (s_tbl s))
+              | ConnShutdown v => v <> u
+              | _ => True
+              end /\ undisturbed ng u (step ng s o) r
+  end.
+
+Lemma step_keeps ng s o u c :
+  wf (s_pool s) -> holds (s_pool s) u c ->
+  match o with CleanupTick => In u (table_urls (s_tbl s)) | ConnShutdown v => v <> u | _ => True end ->
+  holds (s_pool (step ng s o)) u c /\ count_dials (s_pool (step ng s o)) u = count_dials (s_pool s) u.
+Proof.
+  intros W H C. destruct o as [m p k|t| |v]; cbn [step].
+  - destruct (lookup (s_tbl s) ng (dsthost m) p) as [ts|]; [|split; [exact H | reflexivity]].
+    destruct (nth_error ts k) as [v|]; [|split; [exact H | reflexivity]]. cbn [s_pool].
+    destruct (get_keeps_holds (s_pool s) u v c H) as [H1 H2]. split; [exact H1|].
+    destruct (list_eq_dec N.eq_dec v u) as [E|Nq]; [rewrite (H2 E); reflexivity | now apply count_dials_get_other].
+  - split; [exact H | reflexivity].
+  - cbn [s_pool]. split; [now apply tick_keeps_holds | reflexivity].
+  - cbn [s_pool]. split; [now apply shutdown_other_holds|].
+    unfold p_shutdown. destruct (assoc v (p_pool (s_pool s))); reflexivity.
+Qed.
+
+Theorem one_conn_per_backend ng : forall ops s u c,
+  wf (s_pool s) -> holds (s_pool s) u c -> undisturbed ng u s ops ->
+  holds (s_pool (run ng s ops)) u c /\
+  count_dials (s_pool (run ng s ops)) u = count_dials (s_pool s) u.
+Proof.
+  induction ops as [|o ops IH]; intros s u c W H U; cbn [run fold_left]; [split; [exact H | reflexivity]|].
+  destruct U as [C U]. destruct (step_keeps ng s o u c W H C) as [H1 H2].
+  destruct (IH (step ng s o) u c (step_wf ng s o W) H1 U) as [H3 H4]. split; [exact H3|].
+  unfold run in H4. rewrite H4. exact H2.
+Qed.
+
+Lemma call_conn_holds ng s m p k u c :
+  wf (s_pool s) -> call_conn ng s m p k = Some (u, c) -> holds (s_pool (step ng s (Call m p k))) u c.
+Proof.
+  intros W. unfold call_conn. cbn [step].
+  destruct (lookup (s_tbl s) ng (dsthost m) p) as [ts|]; [|discriminate].
+  destruct (nth_error ts k) as [v|]; [|discriminate]. intros E; inversion E; subst. cbn [s_pool].
+  now apply get_holds.
+Qed.
+Lemma call_conn_of_holds ng s m p k u c c' :
+  holds (s_pool s) u c -> call_conn ng s m p k = Some (u, c') -> c' = c.
+Proof.
+  intros [H L]. unfold call_conn.
+  destruct (lookup (s_tbl s) ng (dsthost m) p) as [ts|]; [|discriminate].
+  destruct (nth_error ts k) as [v|]; [|discriminate]. intros E; inversion E; subst.
+  now rewrite (get_reuse _ _ _ H L).
+Qed.
+
+(* sequential calls for one backend share one connection while it is live *)
+Theorem calls_share_connection ng s m p k u c ops m' p' k' c' :
+  wf (s_pool s) ->
+  call_conn ng s m p k = Some (u, c) ->
+  undisturbed ng u (step ng s (Call m p k)) ops ->
+  call_conn ng (run ng (step ng s (Call m p k)) ops) m' p' k' = Some (u, c') ->
+  c' = c /\
+  count_dials (s_pool (run ng (step ng s (Call m p k)) ops)) u = count_dials (s_pool (step ng s (Call m p k))) u.
+Proof.
+  intros W C U C'. pose proof (call_conn_holds ng s m p k u c W C) as H.
+  destruct (one_conn_per_backend ng ops _ u c (step_wf ng s _ W) H U) as [H1 H2].
+  split; [now apply (call_conn_of_holds ng _ m' p' k' u c c' H1) | exact H2].
+Qed.
+
+(* ---- cleanup ---- *)
+Lemma tick_drops urls s u : ~ In u urls ->
+  assoc u (p_pool (p_tick urls s)) = None /\
+  forall c, assoc u (p_pool s) = Some c -> memN c (p_shut (p_tick urls s)) = true.
+Proof.
+  intros Hn. apply mem_false in Hn. unfold p_tick. cbn [p_pool p_shut]. split.
+  - apply assoc_filter_none. intros v _. cbn [fst snd]. rewrite Hn. apply andb_false_r.
+  - intros c H. rewrite memN_app. destruct (memN c (p_shut s)) eqn:M; [reflexivity|]. cbn [orb].
+    apply memN_In. apply in_map_iff. exists (u, c). split; [reflexivity|]. apply filter_In.
+    split; [now apply assoc_In|]. cbn [fst snd]. unfold live. now rewrite M, Hn.
+Qed.
+
+Lemma tick_keeps_routed urls s u c : wf s -> In u urls -> holds s u c -> holds (p_tick urls s) u c.
+Proof. exact (tick_keeps_holds urls s u c). Qed.
+
+Lemma get_shut s v : p_shut (fst (p_get s v)) = p_shut s.
+Proof. unfold p_get. destruct (assoc v (p_pool s)) as [c|]; [destruct (live s c)|]; reflexivity. Qed.
+Lemma get_other_assoc s u v : v <> u -> assoc u (p_pool (fst (p_get s v))) = assoc u (p_pool s).
+Proof.
+  intros Nq. unfold p_get.
+  destruct (assoc v (p_pool s)) as [c|]; [destruct (live s c); [reflexivity|]|];
+    (unfold p_dial; cbn [fst p_pool assoc]; destruct (beq u v) eqn:E; [apply beq_eq in E; congruence|];
+     apply assoc_remove_other; congruence).
+Qed.
+
+Definition no_table_change (o : op) : Prop :=
+  match o with SetTable _ => False | CleanupTick => False | _ => True end.
+
+Lemma calls_leave_unrouted ng u : forall calls s,
+  ~ In u (table_urls (s_tbl s)) -> Forall no_table_change calls ->
+  let s' := run ng s calls in
+  s_tbl s' = s_tbl s /\ assoc u (p_pool (s_pool s')) = assoc u (p_pool (s_pool s)) /\
+  (forall c, memN c (p_shut (s_pool s)) = true -> memN c (p_shut (s_pool s')) = true) /\
+  count_dials (s_pool s') u = count_dials (s_pool s) u.
+Proof.
+  induction calls as [|o calls IH]; intros s Hn F; cbn [run fold_left]; [repeat split; auto|].
+  inversion F as [|? ? Fo F']; subst.
+  assert (S1 : s_tbl (step ng s o) = s_tbl s /\
+               assoc u (p_pool (s_pool (step ng s o))) = assoc u (p_pool (s_pool s)) /\
+               (forall c, memN c (p_shut (s_pool s)) = true -> memN c (p_shut (s_pool (step ng s o))) = true) /\
+               count_dials (s_pool (step ng s o)) u = count_dials (s_pool s) u).
+  { destruct o as [m p k|t| |v]; cbn [step]; cbn [no_table_change] in Fo; try tauto.
+    - destruct (lookup (s_tbl s) ng (dsthost m) p) as [ts|] eqn:L; [|repeat split; auto].
+      destruct (nth_error ts k) as [v|] eqn:Nth; [|repeat split; auto]. cbn [s_tbl s_pool].
+      assert (Nq : v <> u).
+      { intros ->. apply Hn. apply (lookup_in_table _ _ _ _ _ L). now apply nth_error_In in Nth. }
+      split; [reflexivity|]. split; [now apply get_other_assoc|]. split; [now rewrite get_shut | now apply count_dials_get_other].
+    - cbn [s_tbl s_pool]. unfold p_shutdown. destruct (assoc v (p_pool (s_pool s))) as [c0|]; [|repeat split; auto].
+      cbn [p_pool p_shut]. repeat split; auto. intros c M. unfold memN. cbn [existsb]. fold (memN c (p_shut (s_pool s))).
+      rewrite M. apply orb_true_r. }
+  destruct S1 as [T1 [A1 [M1 D1]]].
+  destruct (IH (step ng s o)) as [T2 [A2 [M2 D2]]]; [now rewrite T1 | exact F'|].
+  unfold run in *. split; [congruence|]. split; [congruence|]. split; [auto | congruence].
+Qed.
+
+(* after the first cleanup tick that follows a table without [u], [u] is not pooled, the
+   connection it had is closed, and nothing was dialled for it in between *)
+Theorem dropped_after_leaving ng calls s t u :
+  ~ In u (table_urls t) -> Forall no_table_change calls ->
+  let s' := run ng s (SetTable t :: calls ++ [CleanupTick]) in
+  assoc u (p_pool (s_pool s')) = None /\
+  (forall c, assoc u (p_pool (s_pool s)) = Some c -> memN c (p_shut (s_pool s')) = true) /\
+  count_dials (s_pool s') u = count_dials (s_pool s) u.
+Proof.
+  intros Hn F. cbn [run fold_left step]. unfold run. rewrite fold_left_app. cbn [fold_left step].
+  destruct (calls_leave_unrouted ng u calls (mks t (s_pool s)) Hn F) as [T [A [M D]]].
+  unfold run in *. cbn [s_tbl s_pool] in *. rewrite T.
+  destruct (tick_drops (table_urls t) (s_pool (fold_left (step ng) calls (mks t (s_pool s)))) u Hn) as [P1 P2].
+  split; [exact P1|]. split; [|exact D]. intros c Hc. apply P2. now rewrite A.
+Qed.
+
+(* ---- no route ---- *)
+Theorem no_route_no_dial ng s m p k :
+  lookup (s_tbl s) ng (dsthost m) p = None -> step ng s (Call m p k) = s /\ call_conn ng s m p k = None.
+Proof. intros H. unfold call_conn. cbn [step]. now rewrite H. Qed.
+
+Theorem no_route_not_found t ng ci p :
+  ci_upath ci = Some p -> lookup t ng (dsthost (ci_md ci)) p = None ->
+  call_outcome t ng ci = (None, err_view code_not_found "no route found").
+Proof. intros U H. unfold call_outcome, icpt_lookup. now rewrite U, H. Qed.
+
+Theorem routed_call_relayed t ng ci p ts :
+  ci_upath ci = Some p -> lookup t ng (dsthost (ci_md ci)) p = Some ts ->
+  call_outcome t ng ci = (Some (ts, fst (relay ci)), snd (relay ci)).
+Proof. intros U H. unfold call_outcome, icpt_lookup. rewrite U, H. now destruct (relay ci). Qed.
+
+(* ---- the relay ---- *)
+Lemma ev_msgs_fwd hdr msgs : forall i, ev_msgs (fwd_c2s i hdr msgs) = msgs.
+Proof.
+  induction msgs as [|m r IH]; intros i; cbn [fwd_c2s]; [reflexivity|].
+  destruct (Nat.eqb i 0); cbn [app ev_msgs]; now rewrite IH.
+Qed.
+Lemma ev_hdr_fwd hdr m r : ev_hdr (fwd_c2s 0 hdr (m :: r)) = hdr.
+Proof. reflexivity. Qed.
+Lemma ev_hdr_later hdr msgs : forall i, i <> 0%nat -> ev_hdr (fwd_c2s i hdr msgs) = [].
+Proof.
+  induction msgs as [|m r IH]; intros i Hi; cbn [fwd_c2s]; [reflexivity|].
+  destruct (Nat.eqb i 0) eqn:E; [apply PeanoNat.Nat.eqb_eq in E; congruence|]. cbn [app ev_hdr]. now apply IH.
+Qed.
+
+Theorem relay_transparent ci :
+  let sc := ci_script ci in
+  let (b, c) := relay ci in
+  bv_method b = ci_method ci /\ bv_md b = ci_md ci /\
+  (sc_mode sc <> 2 -> bv_msgs b = ci_msgs ci) /\
+  cv_msgs c = sc_msgs sc /\ cv_trl c = sc_trl sc /\ cv_code c = sc_code sc /\
+  (sc_code sc <> 0 -> cv_msg c = sc_msg sc) /\
+  (sc_msgs sc <> [] -> cv_hdr c = sc_hdr sc) /\
+  (sc_msgs sc = [] -> cv_hdr c = []).
+Proof.
+  unfold relay. cbn [bv_method bv_md bv_msgs cv_hdr cv_msgs cv_trl cv_code cv_msg].
+  repeat split.
+  - intros H. unfold backend_reads. destruct (sc_mode (ci_script ci) =? 2) eqn:E; [apply N.eqb_eq in E; congruence | reflexivity].
+  - apply ev_msgs_fwd.
+  - intros H. destruct (sc_code (ci_script ci) =? 0) eqn:E; [apply N.eqb_eq in E; congruence | reflexivity].
+  - intros H. destruct (sc_msgs (ci_script ci)) as [|m r]; [congruence | reflexivity].
+  - intros ->. reflexivity.
+Qed.
+
+(* ---- no connection is lost in sequential histories ---- *)
+Definition accounted (s : pstate) : Prop :=
+  forall c u, In (c, u) (p_dials s) -> memN c (p_shut s) = true \/ In (u, c) (p_pool s).
+
+Lemma accounted_dial s u :
+  wf s -> (assoc u (p_pool s) = None \/ exists c, assoc u (p_pool s) = Some c /\ live s c = false) ->
+  accounted s -> accounted (fst (p_dial s u)).
+Proof.
+  intros W Hd A c v H. unfold p_dial in *. cbn [fst p_dials p_shut p_pool] in *.
+  apply in_app_or in H. destruct H as [H|[H|[]]].
+  - destruct (A c v H) as [S|P]; [now left|].
+    destruct (list_eq_dec N.eq_dec v u) as [->|Nq].
+    + left. destruct Hd as [Hd|[c0 [Hd L]]].
+      * apply assoc_None_notin in Hd. exfalso. apply Hd. change u with (fst (u, c)). now apply in_map.
+      * rewrite (In_assoc_nodup u c _ (wf_keys s W) P) in Hd. inversion Hd; subst.
+        unfold live in L. now apply negb_false_iff in L.
+    + right. right. apply remove_key_In. tauto.
+  - inversion H; subst. right. now left.
+Qed.
+Lemma accounted_get s u : wf s -> accounted s -> accounted (fst (p_get s u)).
+Proof.
+  intros W A. unfold p_get. destruct (assoc u (p_pool s)) as [c|] eqn:E.
+  - destruct (live s c) eqn:L; [exact A|]. apply accounted_dial; auto. right. exists c. tauto.
+  - apply accounted_dial; auto.
+Qed.
+Lemma accounted_tick urls s : accounted s -> accounted (p_tick urls s).
+Proof.
+  intros A c u H. unfold p_tick in *. cbn [p_dials p_shut p_pool] in *.
+  destruct (A c u H) as [S|P]; [left; rewrite memN_app, S; reflexivity|].
+  rewrite memN_app. destruct (memN c (p_shut s)) eqn:M; [now left|]. cbn [orb].
+  destruct (mem u urls) eqn:Hu.
+  - right. apply filter_In. split; [exact P|]. cbn [fst snd]. unfold live. now rewrite M, Hu.
+  - left. apply memN_In. apply in_map_iff. exists (u, c). split; [reflexivity|]. apply filter_In.
+    split; [exact P|]. cbn [fst snd]. unfold live. now rewrite M, Hu.
+Qed.
+Lemma accounted_shutdown s u : accounted s -> accounted (p_shutdown s u).
+Proof.
+  intros A c v H. unfold p_shutdown in *. destruct (assoc u (p_pool s)) as [c0|]; [|now apply A].
+  cbn [p_dials p_shut p_pool] in *. destruct (A c v H) as [S|P]; [left|now right].
+  unfold memN. cbn [existsb]. fold (memN c (p_shut s)). rewrite S. apply orb_true_r.
+Qed.
+
+Theorem sequential_no_orphans ops : forall st, wf (snd st) -> accounted (snd st) ->
+  forall c, orphan (snd (p_run st ops)) c = false.
+Proof.
+  assert (G : forall ops st, wf (snd st) -> accounted (snd st) -> accounted (snd (p_run st ops))).
+  { induction ops0 as [|o ops0 IH]; intros st W A; cbn [p_run fold_left]; [exact A|].
+    apply IH; [now apply wf_step|]. destruct st as [urls s]. cbn [snd] in *.
+    destruct o; cbn [p_step snd]; [now apply accounted_get | exact A | now apply accounted_tick | now apply accounted_shutdown]. }
+  intros st W A c. specialize (G ops st W A). set (s := snd (p_run st ops)) in *.
+  unfold orphan. destruct (existsb (fun d => fst d =? c) (p_dials s)) eqn:E; [|reflexivity]. cbn [andb].
+  apply existsb_exists in E. destruct E as [[c' u] [Hin E]]. cbn [fst] in E. apply N.eqb_eq in E. subst c'.
+  destruct (G c u Hin) as [S|P].
+  - unfold live. rewrite S. reflexivity.
+  - destruct (live s c); [|reflexivity]. cbn [andb]. apply negb_false_iff. apply existsb_exists.
+    exists (u, c). split; [exact P | apply N.eqb_refl].
+Qed.
+Lemma accounted_init : accounted p_init.
+Proof. intros c u []. Qed.
+
+(* ---- two callers inside Get: the second store orphans the first connection ---- *)
+Definition orphanP (s : pstate) (c : N) : Prop :=
+  (exists u, In (c, u) (p_dials s)) /\ ~ In c (p_shut s) /\ forall k, ~ In (k, c) (p_pool s).
+Lemma orphan_iff s c : orphan s c = true <-> orphanP s c.
+Proof.
+  unfold orphan, orphanP, live. rewrite !andb_true_iff, !negb_true_iff. split.
+  - intros [[E M] P]. split; [|split].
+    + apply existsb_exists in E. destruct E as [[c' u] [Hin E]]. cbn [fst] in E. apply N.eqb_eq in E. subst. now exists u.
+    + intros H. apply memN_In in H. congruence.
+    + intros k H. assert (X : existsb (fun kc : url * N => snd kc =? c) (p_pool s) = true)
+        by (apply existsb_exists; exists (k, c); split; [exact H | apply N.eqb_refl]). congruence.
+  - intros [[u Hin] [M P]]. split; [split|].
+    + apply existsb_exists. exists (c, u). split; [exact Hin | apply N.eqb_refl].
+    + destruct (memN c (p_shut s)) eqn:E; [apply memN_In in E; tauto | reflexivity].
+    + destruct (existsb _ (p_pool s)) eqn:E; [|reflexivity]. apply existsb_exists in E.
+      destruct E as [[k c'] [Hin' E]]. cbn [snd] in E. apply N.eqb_eq in E. subst. exfalso. now apply (P k).
+Qed.
+
+Lemma orphan_step st o c : wf (snd st) -> orphanP (snd st) c -> orphanP (snd (p_step st o)) c.
+Proof.
+  destruct st as [urls s]. cbn [snd]. intros W [[u0 D] [M P]].
+  assert (Hlt : c < p_next s) by (apply (wf_dials s W c u0 D)).
+  destruct o as [v|t| |v]; cbn [p_step snd].
+  - unfold p_get. destruct (assoc v (p_pool s)) as [c0|]; [destruct (live s c0); [repeat split; eauto|]|];
+      (unfold p_dial; cbn [fst]; split; [exists u0; cbn [p_dials]; apply in_or_app; now left|];
+       split; [exact M|]; cbn [p_pool]; intros k [H|H];
+       [inversion H; lia | apply remove_key_In in H; now apply (P k)]).
+  - repeat split; eauto.
+  - unfold p_tick. split; [now exists u0|]. cbn [p_shut p_pool]. split.
+    + intros H. apply in_app_or in H. destruct H as [H|H]; [tauto|].
+      apply in_map_iff in H. destruct H as [[k c'] [E H]]. cbn in E; subst. apply filter_In in H. now apply (P k).
+    + intros k H. apply filter_In in H. now apply (P k).
+  - unfold p_shutdown. destruct (assoc v (p_pool s)) as [c0|] eqn:E; [|repeat split; eauto].
+    split; [now exists u0|]. cbn [p_shut p_pool]. split; [|exact P].
+    intros [H|H]; [subst; apply assoc_In in E; now apply (P v) | tauto].
+Qed.
+Theorem orphan_forever ops : forall st c, wf (snd st) -> orphan (snd st) c = true -> orphan (snd (p_run st ops)) c = true.
+Proof.
+  induction ops as [|o ops IH]; intros st c W H; cbn [p_run fold_left]; [exact H|].
+  apply IH; [now apply wf_step|]. apply orphan_iff. apply orphan_step; [exact W | now apply orphan_iff].
+Qed.
+
+Definition leak_sched : list bool := [false; true; false; true].
+Theorem concurrent_dial_leak u :
+  let '(s, a, b) := run2 p_init u AtRead AtRead leak_sched in
+  a = Done 0 /\ b = Done 1 /\ orphan s 0 = true /\ count_dials s u = 2 /\ wf s /\
+  forall urls ops, orphan (snd (p_run (urls, s) ops)) 0 = true.
+Proof.
+  unfold leak_sched. cbn [run2 thread_step p_init p_pool assoc p_dial p_next p_shut p_dials remove_key app].
+  change (0 + 1) with 1. cbn [run2 thread_step p_dial p_next p_pool p_shut p_dials remove_key app].
+  rewrite beq_refl. cbn [remove_key].
+  set (s := mkp [(u, 1)] (1 + 1) [] [(0, u); (1, u)]).
+  assert (W : wf s).
+  { constructor; cbn.
+    - intros k c [H|[]]. inversion H; subst. reflexivity.
+    - tauto.
+    - constructor; [tauto | constructor].
+    - constructor; [tauto | constructor].
+    - intros c v [H|[H|[]]]; inversion H; subst; reflexivity. }
+  assert (O : orphan s 0 = true) by reflexivity.
+  split; [reflexivity|]. split; [reflexivity|]. split; [exact O|]. split; [|split; [exact W|]].
+  - unfold count_dials. cbn [p_dials s filter snd]. rewrite beq_refl. reflexivity.
+  - intros urls ops. now apply (orphan_forever ops (urls, s) 0).
+Qed.
+
+(* a schedule in which each caller finishes Get before the other starts loses nothing *)
+Theorem sequential_get_no_leak u :
+  let '(s, a, b) := run2 p_init u AtRead AtRead [false; false; true; true] in
+  a = Done 0 /\ b = Done 0 /\ count_dials s u = 1 /\ forall c, orphan s c = false.
+Proof.
+  cbn [run2 thread_step p_init p_pool assoc p_dial p_next p_shut p_dials remove_key app].
+  rewrite beq_refl. unfold live. cbn [p_shut memN existsb negb].
+  repeat split.
+  - unfold count_dials. cbn [p_dials filter snd]. rewrite beq_refl. reflexivity.
+  - intros c. unfold orphan. cbn [p_dials p_pool p_shut existsb fst snd]. unfold live. cbn [p_shut memN existsb negb].
+    destruct (0 =? c); reflexivity.
+Qed.
+
+(* ---- non-vacuity: concrete histories that meet the hypotheses ---- *)
+Definition ex_u : url := bs "grpc://10.0.0.1:9000".
+Definition ex_v : url := bs "grpc://10.0.0.2:9000".
+Definition ex_tbl : table := [(bs "betatest", [(bs "/pkg.Svc", [ex_v])]); ([], [(bs "/pkg.Svc/Get", [ex_u]); (bs "/", [ex_v])])].
+Definition ex_md : md := [(k_dsthost, [bs "BetaTest:80"])].
+Definition ex_s0 : state := mks ex_tbl p_init.
+
+Example share_nonvacuous :
+  call_conn false ex_s0 [] (bs "/pkg.Svc/Get") 0 = Some (ex_u, 0) /\
+  undisturbed false ex_u (step false ex_s0 (Call [] (bs "/pkg.Svc/Get") 0))
+     [Call ex_md (bs "/pkg.Svc/Get") 0; CleanupTick; ConnShutdown ex_v; Call [] (bs "/x") 0] /\
+  call_conn false (run false (step false ex_s0 (Call [] (bs "/pkg.Svc/Get") 0))
+     [Call ex_md (bs "/pkg.Svc/Get") 0; CleanupTick; ConnShutdown ex_v; Call [] (bs "/x") 0])
+     [] (bs "/pkg.Svc/Get") 0 = Some (ex_u, 0).
+Proof.
+  split; [vm_compute; reflexivity|]. split; [|vm_compute; reflexivity].
+  cbn [undisturbed]. repeat split; try discriminate.
+  apply mem_In. vm_compute. reflexivity.
+Qed.
+
+Example dropped_nonvacuous :
+  let s := run false ex_s0 [Call [] (bs "/pkg.Svc/Get") 0] in
+  let t := [([], [(bs "/", [ex_v])])] in
+  assoc ex_u (p_pool (s_pool s)) = Some 0 /\ ~ In ex_u (table_urls t) /\
+  Forall no_table_change [Call [] (bs "/pkg.Svc/Get") 0; ConnShutdown ex_v] /\
+  memN 0 (p_shut (s_pool (run false s (SetTable t :: [Call [] (bs "/pkg.Svc/Get") 0; ConnShutdown ex_v] ++ [CleanupTick])))) = true.
+Proof.
+  cbn zeta. split; [vm_compute; reflexivity|]. split; [apply mem_false; vm_compute; reflexivity|].
+  split; [repeat constructor | vm_compute; reflexivity].
+Qed.
+
+Example lookup_nonvacuous :
+  lookup ex_tbl false (dsthost ex_md) (bs "/pkg.Svc/Get") = Some [ex_v] /\
+  lookup ex_tbl false (dsthost []) (bs "/pkg.Svc/Get") = Some [ex_u] /\
+  lookup ex_tbl true (dsthost ex_md) (bs "/pkg.Svc/Get") = Some [ex_v] /\
+  lookup [(bs "betatest", [(bs "/pkg.Svc", [ex_v])])] false [] (bs "/pkg.Svc/Get") = None.
+Proof. vm_compute. repeat split. Qed.
+
+Lemma reachable_wf ng t ops : wf (s_pool (run ng (mks t p_init) ops)).
+Proof. apply run_wf. exact wf_init. Qed.
+Lemma sequential_no_orphans_init ops urls c : orphan (snd (p_run (urls, p_init) ops)) c = false.
+Proof. apply (sequential_no_orphans ops (urls, p_init)); [exact wf_init | exact accounted_init]. Qed.
